@@ -593,7 +593,7 @@ def replay(ctx, case):
     if k in HANDLERS:
         spec_expected(ctx, case)
         HANDLERS[k](ctx, case)
-    elif k in ("l3_rotblob", "l3_sym", "l3_dtype", "l3_grey"):
+    elif k in ("l3_rotblob", "l3_sym", "l3_dtype", "l3_grey", "l3_smallrot"):
         run_l3(ctx, [case], name="replay")
     elif k == "mapsys":
         mapsys.replay(ctx, case)
@@ -667,6 +667,52 @@ def rotblob_event(case):
         ev["args_ok"] = ev["args_ok"] and not guard.changed()
         if back.shape == vol.shape and np.all(np.isfinite(back)):
             ev["back"] = int(round(corr(vol, back) * 1e6))
+    return [ev]
+
+
+def gen_smallrot(rng, idx):
+    """a smooth blob far from the box centre, turned by a small non-zero rotation (0.05 .. 2 degree)"""
+    n0 = rng.choice([40, 44, 48])
+    dims = [n0, n0, n0]
+    sigma = rng.uniform(2.0, 3.0)
+    c = n0 // 2
+    while True:
+        v = [rng.uniform(-1, 1) for _ in range(3)]
+        nv = math.sqrt(sum(x * x for x in v))
+        if nv > 0.3:
+            break
+    r = rng.uniform(0.55, 0.8) * (c - 3.0 * sigma - 1)
+    v = [x / nv * r for x in v]
+    theta = rng.choice([0.05, 0.2, 0.5, 1.0, 1.5, 2.0, rng.uniform(0.05, 2.0)])
+    w = rng.randrange(3)
+    # small rotations in three spellings: about z only, all three angles small, and phi / psi nearly cancelling
+    ang = [[0.0, 0.0, theta], [0.4 * theta, 0.6 * theta, 0.35 * theta], [40.0, theta, -40.0]][w]
+    return {"kind": "l3_smallrot", "id": idx, "dims": dims, "sigma": sigma, "v": v, "ang": ang, "form": rng.randrange(3)}
+
+
+def smallrot_event(case):
+    from cryocat import cryomap
+    from scipy.spatial.transform import Rotation
+    dims = case["dims"]
+    c = np.array([d // 2 for d in dims], dtype=float)
+    v = np.array(case["v"])
+    R = geo.zxz_matrix(*case["ang"])
+    vol = blob(dims, c + v, case["sigma"])
+    if case["form"] == 0:
+        out = cryomap.rotate(vol, rotation_angles=list(case["ang"]))
+    elif case["form"] == 1:
+        out = cryomap.rotate(vol, rotation_angles=np.array(case["ang"]))
+    else:
+        out = cryomap.rotate(vol, rotation=Rotation.from_matrix(R), transpose_rotation=True)
+    out = np.asarray(out, dtype=float)
+    want = blob(dims, c + R @ v, case["sigma"])          # the analytic blob at centre + R v (active convention)
+    ev = {"kind": "smallrot", "err": -1, "back": -1, "moved": int(round(float(np.linalg.norm(R @ v - v)) * 1e4))}
+    if out.shape == vol.shape and np.all(np.isfinite(out)):
+        ev["err"] = int(min(999999999, round(float(np.max(np.abs(out - want))) * 1e6)))
+        a = case["ang"]
+        back = np.asarray(cryomap.rotate(out, rotation_angles=[-a[2], -a[1], -a[0]]), dtype=float)
+        if back.shape == vol.shape and np.all(np.isfinite(back)):
+            ev["back"] = int(min(999999999, round(float(np.max(np.abs(back - vol))) * 1e6)))
     return [ev]
 
 
@@ -809,10 +855,10 @@ def grey_event(case):
 def run_l3(ctx, cases, name="trace"):
     traces = []
     for case in cases:
-        fn = {"l3_rotblob": rotblob_event, "l3_dtype": dtype_event, "l3_grey": grey_event}.get(case["kind"], sym_event)
+        fn = {"l3_rotblob": rotblob_event, "l3_dtype": dtype_event, "l3_grey": grey_event, "l3_smallrot": smallrot_event}.get(case["kind"], sym_event)
         evs, err = core.call_guarded(fn, case)
         if err is not None:
-            ctx.fail("call_raises", err, case, {"op": {"l3_rotblob": "rotate", "l3_dtype": "rotate/place_object", "l3_grey": "place_object"}.get(case["kind"], "symmetrize_volume")})
+            ctx.fail("call_raises", err, case, {"op": {"l3_rotblob": "rotate", "l3_smallrot": "rotate", "l3_dtype": "rotate/place_object", "l3_grey": "place_object"}.get(case["kind"], "symmetrize_volume")})
             evs = []
         traces.append({"id": case["id"], "ev": evs})
         ctx.ran(case)
@@ -821,7 +867,7 @@ def run_l3(ctx, cases, name="trace"):
     with open(path, "w") as fh:
         for t in traces:
             fh.write(json.dumps(t) + "\n")
-    cfgt = ("SPECIFICATION TraceSpec\nCONSTANTS\n DtypeTol = 1000\n ComTol = 2500\n BackMin = 980000\n SymMin = 990000\n DensTol = 50000\n"
+    cfgt = ("SPECIFICATION TraceSpec\nCONSTANTS\n SmallTol = 4000\n DtypeTol = 1000\n ComTol = 2500\n BackMin = 980000\n SymMin = 990000\n DensTol = 50000\n"
             "CONSTRAINT Report\n")
     res = ctx.tlc("MapGeomTrace", cfgt, name=name, env={"TRACE_FILE": path}, workers=1)
     verdicts = {v["tid"]: v for v in res.tagged.get("VERDICT", [])}
@@ -831,7 +877,7 @@ def run_l3(ctx, cases, name="trace"):
         v = verdicts[i + 1]
         if not v["ok"]:
             ev = traces[i]["ev"][v["step"] - 1]
-            sig = {"op": "rotate", "form": "real"} if ev["kind"] == "rotblob" else \
+            sig = {"op": "rotate", "form": "real"} if ev["kind"] == "rotblob" else {"op": "rotate", "form": "small"} if ev["kind"] == "smallrot" else \
                   ({"op": "rotate/place_object", "form": "storage_type"} if ev["kind"] == "dtype" else
                    ({"op": "place_object", "template": "grey"} if ev["kind"] == "grey" else {"op": "symmetrize_volume", "n": ev["n"]}))
             ctx.fail(v["clause"], "event rejected by MapGeomTrace: %s" % json.dumps(ev), case, sig)
@@ -931,6 +977,7 @@ def run(ctx):
     cases += [gen_sym(ctx.rng, nrot + k + 1, big, n=2 + k % 11) for k in range(nsym)]       # every n in 2..12
     cases += [gen_dtype(ctx.rng, nrot + nsym + k + 1) for k in range(ctx.pick(40, 1200))]
     cases += [gen_grey(ctx.rng, len(cases) + k + 1) for k in range(ctx.pick(40, 1200))]
+    cases += [gen_smallrot(ctx.rng, 0) for k in range(ctx.pick(40, 1000))]
     for k, c in enumerate(cases):
         c["id"] = k + 1
     run_l3(ctx, cases)
